@@ -139,7 +139,7 @@ impl Property for C04 {
     }
     fn strategy(&self, _tier: Tier) -> BoxedStrategy<C04Case> {
         let cfg = CaseCfg { max_s: 4, ..CaseCfg::default() };
-        let fam = FamCfg { max_s: 4, min_n: 12, max_n: 60, noise_lo: 1e-4, noise_hi: 1e-1, noiseless_16: 4, start_rel: 0.3, allow_f32: true, weights: true, calibrated_weights: false };
+        let fam = FamCfg { max_s: 4, min_n: 12, max_n: 60, noise_lo: 1e-4, noise_hi: 1e-1, noiseless_16: 4, start_rel: 0.3, allow_f32: true, weights: true, calibrated_weights: false, extra_families: false, wide_weights: false, max_decays: 3 };
         (case_strategy(cfg), family_strategy(fam), lm_strategy(12), any::<u16>(), any::<u16>(), any::<u16>())
             .prop_map(|(mut base, fam, lm, src, wild, wk)| {
                 if src % 2 == 0 {
